@@ -365,8 +365,10 @@ def main():
         "wall_s": round(time.time() - t0, 2),
         "violations": len(violations) + (1 if (exit_code == 1 and not violations) else 0),
     }
-    (VERIF / "evidence").mkdir(exist_ok=True)
-    (VERIF / "evidence" / f"{prop}.json").write_text(json.dumps(ev, indent=1, default=str))
+    # evidence is only ever written from a run against /repo itself (never from a scratch tree given by VERIF_REPO)
+    evdir = VERIF / ("evidence" if os.environ.get("VERIF_REPO", "/repo") == "/repo" else "evidence_scratch")
+    evdir.mkdir(exist_ok=True)
+    (evdir / f"{prop}.json").write_text(json.dumps(ev, indent=1, default=str))
     print(f"{prop} tier={tier} seed={seed}: evaluations={res.evaluations} distinct={len(res.nontrivial)} "
           f"obligations={n_ok}/{n_obl} corr_breaks={len(res.corr)} violations={len(violations)} "
           f"known={len(known_hits)} wall={ev['wall_s']}s exit={exit_code}")
